@@ -122,7 +122,17 @@ where go : List String → String
         if hasAny t then "skip" else
         match parseField Dialect.fork .canon t p bs with
         | .ok _ => "1"
-        | .error _ => "0"
+        | .error _ =>
+          -- Canon is sufficient for an exact round trip (`marshal_parse`), not necessary: the octets a present-but-omitted field
+          -- loses can be written back by a neighbour (`12 00` read by an `optional` string, re-emitted by the absent
+          -- `optional,default:…` string after it — found by the thorough tier). Such an input is exact without being canonical;
+          -- the model says so when its own Marshal ∘ Unmarshal reproduces the consumed octets.
+          match parseField Dialect.fork .strict t p bs with
+          | .error _ => "0"
+          | .ok (v, rest) =>
+            match marshalField Dialect.fork t p v with
+            | .ok b => if b == bs.take (bs.length - rest.length) then "1" else "0"
+            | .error _ => "0"
     | _ => "bad-op"
   | _ => "bad-op"
 
